@@ -38,7 +38,10 @@ Inductive c17_case :=
 | CR (acts : list act) (obs : list pobs) (via : pobs) (restored closing : bool)
     (* as CS, but the session is left through Terminal::run / run_render returning `via` *)
 | CT (requested seen other : N) (last quiet : bool)
-| CO (failed unchanged : bool).
+| CO (failed unchanged : bool)
+| CF (drop_ms : N) (restored : bool).
+    (* dropped while the other side keeps typing and never answers the sync request: the wait of
+       dispose has an overall deadline (3 s, plus one poll of at most 1 s) *)
     (* SystemTerminal::open made to fail after the tty is known (no descriptors for the sockets): no
        object exists, no Drop will run; the line settings must be the ones found *)
 
@@ -184,11 +187,14 @@ Definition nothing_outstanding (o : outstanding) : bool :=
 
 Definition slack : N := 1000.       (* milliseconds of scheduling noise tolerated on a loaded machine *)
 
-Definition timely (tmo : option N) (du : dur) (was_owed : bool) (elapsed : N) : bool :=
+(* wake_owed: a wake request is outstanding when the poll is entered.  Only wake requests bound an
+   infinite poll unconditionally; other events are returned once the output has been flushed *)
+Definition timely (tmo : option N) (du : dur) (wake_owed : bool) (elapsed : N) : bool :=
   match tmo, du with
   | Some ms, _ => elapsed <=? ms + slack                      (* a finite poll returns by its timeout *)
-  | None, DWake d | None, DWinch d => elapsed <=? d + slack   (* the request ends the infinite poll *)
-  | None, DNone => if was_owed then elapsed <=? slack else true
+  | None, DWake d | None, DWinch d => elapsed <=? d + slack   (* the request ends the infinite poll
+                                                                 (DWinch is scripted with no output stalled) *)
+  | None, DNone => if wake_owed then elapsed <=? slack else true
   end.
 
 Definition owes (o : outstanding) : bool := negb (nothing_outstanding o).
@@ -206,7 +212,7 @@ Fixpoint spec_run (o : outstanding) (hup : bool) (acts : list act) (obs : list p
       | AHup => spec_run o true rest obs
       | AFault _ => spec_run o hup rest obs
       | APoll tmo _ _ elapsed du spins =>
-          let owed_at_entry := owes o in
+          let owed_at_entry := o_wake o in
           (* a request issued while the thread sits in the poll is owed like any other *)
           let o := match du with
                    | DNone => o
@@ -216,8 +222,8 @@ Fixpoint spec_run (o : outstanding) (hup : bool) (acts : list act) (obs : list p
           match obs with
           | [] => false
           | ob :: obs' =>
-              timely tmo du (owes o) elapsed &&
-              (* bounded in iterations too: with an event owed the loop does not go round on a tty that
+              timely tmo du owed_at_entry elapsed &&
+              (* bounded in iterations too: with a wake owed the loop does not go round on a tty that
                  is reported writable and takes nothing *)
               (if owed_at_entry then spins <=? 1 else true) &&
               match ob with
@@ -259,6 +265,7 @@ Definition c17_check (c : c17_case) : bool * bool :=
       (* coalescing allowed, loss and invention impossible; a request after the storm is seen *)
       (true, (1 <=? seen) && (seen <=? requested) && (other =? 0) && last && quiet)
   | CO failed unchanged => (failed, unchanged)
+  | CF drop_ms restored => (true, restored && (drop_ms <=? 4000 + slack))
   end.
 
 Definition c17_report := report c17_check.
